@@ -107,6 +107,140 @@ func c02Texts(c *plCfg, ans []dns.RR) (texts []string, kinds []string) {
 	return texts, kinds
 }
 
+// ---- round 6: the rest of the upstream message (response code, authority
+// and additional sections, TC flag, the question's case)
+
+var c02Rcodes = []int{dns.RcodeNameError, dns.RcodeNameError, dns.RcodeServerFailure, dns.RcodeRefused,
+	dns.RcodeNotImplemented, dns.RcodeNotAuth, dns.RcodeSuccess, dns.RcodeSuccess}
+
+func c02SOA(zone string, ttl uint32) dns.RR {
+	return &dns.SOA{Hdr: plRR(zone, ttl, dns.TypeSOA), Ns: "ns1." + zone, Mbox: "hostmaster." + zone,
+		Serial: 2024, Refresh: 7200, Retry: 3600, Expire: 86400, Minttl: 60}
+}
+
+func c02NS(zone string, ttl uint32, host string) dns.RR {
+	return &dns.NS{Hdr: plRR(zone, ttl, dns.TypeNS), Ns: host}
+}
+
+func c02Zone(qname string) string {
+	if i := strings.Index(qname, "."); i >= 0 && i+1 < len(qname) {
+		return strings.ToLower(qname[i+1:])
+	}
+	return strings.ToLower(qname)
+}
+
+// c02Fits: the upstream's message for the longest question stays well under
+// 512 octets uncompressed, so that dnsproxy's scrub (Msg.Truncate with the
+// client's UDP size) leaves it alone; truncation by size is not modelled.
+func c02Fits(m *dns.Msg, qname string) bool {
+	probe := m.Copy()
+	probe.Question = []dns.Question{{Name: qname, Qtype: dns.TypeHTTPS, Qclass: dns.ClassINET}}
+	return probe.Len() <= 440
+}
+
+// c02Shape gives the scripted answer m to the question qname a response
+// code, authority and additional sections, a TC flag and a question case
+// drawn from r; the answer section is left as it is.
+func c02Shape(r *vfRand, m *dns.Msg, qname string) *dns.Msg {
+	zone := c02Zone(qname)
+	m.Rcode = vfPick(r, c02Rcodes)
+	if r.Chance(1, 2) {
+		m.Ns = append(m.Ns, c02SOA(zone, 900))
+	}
+	if r.Chance(1, 3) {
+		// (a name of the rule universe in the authority section: not examined)
+		m.Ns = append(m.Ns, c02NS(zone, 901, vfPick(r, []string{"ns1." + zone, "b.a.test.", "cdn.example."})))
+	}
+	if r.Chance(1, 3) {
+		for i, n := 0, 1+r.Intn(2); i < n; i++ {
+			// (an address of the rule universe in the additional section: not examined)
+			if r.Chance(1, 4) {
+				m.Extra = append(m.Extra, plAAAA("ns1."+zone, uint32(910+i), vfPick(r, c02V6[:2])))
+			} else {
+				m.Extra = append(m.Extra, plA("ns1."+zone, uint32(910+i), vfPick(r, c02V4)))
+			}
+		}
+	}
+	for !c02Fits(m, qname) && (len(m.Extra) > 0 || len(m.Ns) > 0) {
+		if len(m.Extra) > 0 {
+			m.Extra = m.Extra[:len(m.Extra)-1]
+		} else {
+			m.Ns = m.Ns[:len(m.Ns)-1]
+		}
+	}
+	m.Truncated = r.Chance(1, 6)
+	plSetQCase(m, vfPick(r, []string{"", "", "", plQLower, plQUpper}))
+	return m
+}
+
+// c02Shaped reports whether the scripted message has anything beyond a
+// NOERROR code and an answer section.
+func c02Shaped(m *dns.Msg) bool {
+	return m.Rcode != dns.RcodeSuccess || len(m.Ns) > 0 || len(m.Extra) > 0 || m.Truncated || plScriptQCase(m) != ""
+}
+
+func c02ShapeDesc(m *dns.Msg) string {
+	return fmt.Sprintf("rcode %s authority %v additional %v tc %v question %q", dns.RcodeToString[m.Rcode], m.Ns, m.Extra,
+		m.Truncated, strings.TrimPrefix(plScriptQCase(m), "qcase:"))
+}
+
+func c02RcodeClass(rc int) string {
+	switch rc {
+	case dns.RcodeSuccess:
+		return "noerror"
+	case dns.RcodeNameError:
+		return "nxdomain"
+	case dns.RcodeServerFailure:
+		return "servfail"
+	case dns.RcodeRefused:
+		return "refused"
+	case dns.RcodeNotImplemented:
+		return "notimp"
+	}
+	return "other"
+}
+
+func c02SameRRs(got, want []dns.RR) bool {
+	if len(got) != len(want) {
+		return false
+	}
+	for i := range got {
+		if got[i].String() != want[i].String() {
+			return false
+		}
+	}
+	return true
+}
+
+// c02DeliveredWhole: the property for a delivered answer beyond its answer
+// section: the upstream's response code, authority section (SOA contents
+// included), additional section (OPT aside), TC flag and question reach the
+// client as the upstream sent them.
+func c02DeliveredWhole(q *plQuery, o *plObs) (ok bool, why string) {
+	up := q.Answer
+	switch {
+	case o.Res.Rcode != up.Rcode:
+		return false, fmt.Sprintf("response code %s, the upstream's was %s", dns.RcodeToString[o.Res.Rcode], dns.RcodeToString[up.Rcode])
+	case !c02SameRRs(o.Res.Ns, up.Ns):
+		return false, fmt.Sprintf("authority section %v, the upstream's was %v", o.Res.Ns, up.Ns)
+	case !c02SameRRs(plOtherExtra(o.Res), plOtherExtra(up)):
+		return false, fmt.Sprintf("additional section %v, the upstream's was %v", plOtherExtra(o.Res), plOtherExtra(up))
+	case o.Res.Truncated != up.Truncated:
+		return false, fmt.Sprintf("TC=%v, the upstream's was %v", o.Res.Truncated, up.Truncated)
+	}
+	want := q.Name
+	switch plScriptQCase(up) {
+	case plQLower:
+		want = strings.ToLower(q.Name)
+	case plQUpper:
+		want = strings.ToUpper(q.Name)
+	}
+	if o.ResQName != want {
+		return false, fmt.Sprintf("question %q, the upstream's was %q", o.ResQName, want)
+	}
+	return true, ""
+}
+
 func c02ContainsUpstreamRecord(got, upstream []dns.RR) bool {
 	for _, g := range got {
 		for _, u := range upstream {
@@ -176,8 +310,44 @@ func c02Monitor(c *plCfg, q *plQuery, o *plObs, viaCache bool) (ok bool, msg str
 		if c02ContainsUpstreamRecord(o.Res.Answer, q.Answer.Answer) {
 			return false, "answer blocked by response filtering still carries an upstream record", classes
 		}
+		if o.ResQName != q.Name {
+			return false, fmt.Sprintf("the blocking-mode answer carries the question %q, the client asked %q", o.ResQName, q.Name), classes
+		}
 	} else if forwarded && (res == nil || !res.IsFiltered) {
 		classes = append(classes, "resp-delivered")
+		if !viaCache {
+			// round 6: whatever response filtering decides about the answer
+			// section, the rest of a delivered message is the upstream's
+			if ok, why := c02DeliveredWhole(q, o); !ok {
+				return false, "the upstream answer was delivered but not as it came: " + why, classes
+			}
+		}
+	}
+	if forwarded && (respBlocked || res == nil || !res.IsFiltered) {
+		// round 6 classes: what the scripted message has beyond its answer section
+		up, verdict := q.Answer, "delivered"
+		if respBlocked {
+			verdict = "blocked"
+		}
+		classes = append(classes, "rcode-"+c02RcodeClass(up.Rcode)+"-"+verdict)
+		if up.Rcode != dns.RcodeSuccess && len(up.Answer) > 0 {
+			classes = append(classes, "rcode-failed-with-records-"+verdict)
+		}
+		if plHasSOA(up) {
+			classes = append(classes, "authority-soa-"+verdict)
+		}
+		if len(plOtherNs(up)) > 0 {
+			classes = append(classes, "authority-ns-"+verdict)
+		}
+		if len(plOtherExtra(up)) > 0 {
+			classes = append(classes, "additional-records-"+verdict)
+		}
+		if up.Truncated {
+			classes = append(classes, "tc-set-"+verdict)
+		}
+		if qc := plScriptQCase(up); qc != "" && strings.ToLower(q.Name) != strings.ToUpper(q.Name) {
+			classes = append(classes, "question-case-"+strings.TrimPrefix(qc, "qcase:")+"-"+verdict)
+		}
 	}
 
 	gateOpen := protection && filteringOn
@@ -291,6 +461,16 @@ func TestVerifC02(t *testing.T) {
 	defer out.Close()
 	rnd := vfNewRand(out.Seed)
 
+	// round 6: an independent stream for the rest of the upstream message, so
+	// that the answer sections drawn from rnd stay what they were
+	shp := vfNewRand(out.Seed ^ 0x6C02A5A5)
+	shaped := func(m *dns.Msg, qname string) *dns.Msg {
+		if shp.Chance(1, 3) {
+			return c02Shape(shp, m, qname)
+		}
+		return m
+	}
+
 	var lastObs plObs
 	viaCache := false
 	emitAs := func(ctor string, ps *plServer, q *plQuery, extra ...string) {
@@ -305,6 +485,15 @@ func TestVerifC02(t *testing.T) {
 		res := o.Result
 		var defs []vfDef
 		coq := plCaseCoqShared(ctor, ps, q, &o, &defs)
+		// (round 6: the rest of the message is named only when there is one,
+		// so that the keys of the cases without stay what they were)
+		desc := map[string]any{"config": ps.cfg.Desc(), "name": q.Name, "qtype": dns.TypeToString[q.QType], "client": q.Addr.String(),
+			"upstream_answer": fmt.Sprint(q.Answer.Answer)}
+		shape := ""
+		if c02Shaped(q.Answer) {
+			shape = c02ShapeDesc(q.Answer)
+			desc["upstream_message"] = shape
+		}
 		c := vfCase{
 			Coq:        coq,
 			Defs:       defs,
@@ -312,12 +501,14 @@ func TestVerifC02(t *testing.T) {
 			Classes:    append(append(classes, plSubnetClasses(ps.cfg, q)...), extra...),
 			MonitorOK:  ok,
 			MonitorMsg: msg,
-			Desc: map[string]any{"config": ps.cfg.Desc(), "name": q.Name, "qtype": dns.TypeToString[q.QType], "client": q.Addr.String(),
-				"upstream_answer": fmt.Sprint(q.Answer.Answer)},
+			Desc:       desc,
 		}
 		if !ok {
-			c.FindingKey = "c02-" + vfHash(ps.cfg.Desc(), q.Name, q.QType, q.Addr, fmt.Sprint(q.Answer.Answer))
+			c.FindingKey = "c02-" + vfHash(ps.cfg.Desc(), q.Name, q.QType, q.Addr, fmt.Sprint(q.Answer.Answer)+shape)
 			c.MonitorMsg = msg + fmt.Sprintf(" [config %v; query %s %s from %s; upstream answer %v]", ps.cfg.Desc(), q.Name, dns.TypeToString[q.QType], q.Addr, q.Answer.Answer)
+			if shape != "" {
+				c.MonitorMsg += " [upstream message: " + shape + "]"
+			}
 		}
 		out.Emit(c)
 	}
@@ -432,6 +623,83 @@ func TestVerifC02(t *testing.T) {
 		emit(plNewServer(t, c5), &plQuery{Name: "x.test.", QType: dns.TypeA, Addr: cli, Answer: plMsg(0, plCNAME("x.test.", 330, "xa.test."), good)}, "prelude-hosts-rule-target")
 	}
 
+	{
+		// round 6: the upstream's response code, authority and additional
+		// sections, TC flag and the case of the question inside its answer.
+		// filterDNSResponse reads the answer section whatever the rest says;
+		// records of the other sections are not examined.
+		soa := c02SOA("test.", 900)
+		nsRR := c02NS("test.", 901, "ns1.test.")
+		glue := plA("ns1.test.", 910, "93.184.216.34")
+		msg := func(rc int, ans, ns, extra []dns.RR, tc bool, qc string) *dns.Msg {
+			m := plMsg(rc, ans...)
+			m.Ns, m.Extra, m.Truncated = ns, extra, tc
+			plSetQCase(m, qc)
+			return m
+		}
+		rrs := func(x ...dns.RR) []dns.RR { return x }
+		ask := func(ps *plServer, name string, qt uint16, m *dns.Msg, class string) {
+			emit(ps, &plQuery{Name: name, QType: qt, Addr: cli, Answer: m}, class)
+		}
+		for _, mode := range plModes {
+			c := base()
+			c.Mode = mode
+			ps := plNewServer(t, c)
+			// the chain ends at a name that does not exist: NXDOMAIN with the
+			// CNAME records in the answer section (RFC 2308 2.1, RFC 6604); the
+			// canonical name is blocked
+			ask(ps, "alias.test.", dns.TypeA, msg(dns.RcodeNameError, rrs(plCNAME("alias.test.", 301, "B.a.test.")), rrs(soa), nil, false, ""),
+				"prelude-nxdomain-cname-blocked")
+			ask(ps, "alias.test.", dns.TypeA, msg(dns.RcodeNameError, rrs(plCNAME("alias.test.", 310, "cdn.example."), plCNAME("cdn.example.", 311, "edge.example."),
+				plCNAME("edge.example.", 312, "c.b.a.test.")), rrs(soa), nil, false, ""), "prelude-nxdomain-cname-chain-blocked-last-hop")
+			for _, rc := range []int{dns.RcodeServerFailure, dns.RcodeRefused, dns.RcodeNotImplemented, dns.RcodeNotAuth} {
+				cl := "prelude-rcode-" + c02RcodeClass(rc)
+				ask(ps, "x.test.", dns.TypeA, msg(rc, rrs(bad, noise, good), nil, nil, false, ""), cl+"-offending-cname")
+				ask(ps, "x.test.", dns.TypeA, msg(rc, rrs(noise, good, badA), nil, nil, false, ""), cl+"-offending-a")
+				ask(ps, "x.test.", dns.TypeAAAA, msg(rc, rrs(plAAAA("x.test.", 305, "2606:2800::1"), plAAAA("x.test.", 306, "2001:db8::1")), nil, nil, false, ""), cl+"-offending-aaaa")
+				ask(ps, "x.test.", dns.TypeHTTPS, msg(rc, rrs(plHTTPS("x.test.", 307, []string{"93.184.216.34", "1.2.3.4"}, nil, true)), nil, nil, false, ""), cl+"-offending-hint")
+				ask(ps, "x.test.", dns.TypeA, msg(rc, rrs(noise, good), nil, nil, false, ""), cl+"-clean")
+			}
+		}
+		ps := plNewServer(t, base())
+		// nothing offends: code and sections reach the client
+		ask(ps, "alias.test.", dns.TypeA, msg(dns.RcodeNameError, rrs(plCNAME("alias.test.", 320, "cdn.example.")), rrs(soa, nsRR), rrs(glue), false, ""),
+			"prelude-nxdomain-clean-delivered-with-sections")
+		ask(ps, "x.test.", dns.TypeA, msg(dns.RcodeSuccess, rrs(good), rrs(nsRR), rrs(glue), false, ""), "prelude-noerror-clean-delivered-with-sections")
+		ask(ps, "x.test.", dns.TypeA, msg(dns.RcodeSuccess, nil, rrs(soa), nil, false, ""), "prelude-nodata-delivered-with-soa")
+		// an offending record with sections around it
+		ask(ps, "x.test.", dns.TypeA, msg(dns.RcodeSuccess, rrs(good, badA), rrs(nsRR), rrs(glue), false, ""), "prelude-sections-offending-a")
+		// blocked names / addresses OUTSIDE the answer section are not examined
+		ask(ps, "x.test.", dns.TypeA, msg(dns.RcodeSuccess, rrs(good), rrs(nsRR), rrs(plA("ns1.test.", 911, "1.2.3.4"), plAAAA("ns1.test.", 912, "2001:db8::1")), false, ""),
+			"prelude-additional-blocked-address-not-examined")
+		ask(ps, "x.test.", dns.TypeA, msg(dns.RcodeSuccess, rrs(good), rrs(c02NS("test.", 902, "b.a.test.")), nil, false, ""),
+			"prelude-authority-blocked-name-not-examined")
+		// the TC flag
+		ask(ps, "x.test.", dns.TypeA, msg(dns.RcodeSuccess, rrs(bad, good), nil, nil, true, ""), "prelude-tc-offending")
+		ask(ps, "x.test.", dns.TypeA, msg(dns.RcodeSuccess, rrs(noise, good), nil, nil, true, ""), "prelude-tc-clean")
+		// the question inside the answer in another case than the client's
+		ask(ps, "X.Test.", dns.TypeA, msg(dns.RcodeSuccess, rrs(plA("x.test.", 303, "93.184.216.34")), nil, nil, false, plQLower), "prelude-question-lower-clean")
+		ask(ps, "X.Test.", dns.TypeA, msg(dns.RcodeSuccess, rrs(plCNAME("x.test.", 301, "B.a.test.")), nil, nil, false, plQLower), "prelude-question-lower-offending")
+		ask(ps, "x.Test.", dns.TypeA, msg(dns.RcodeNameError, rrs(plCNAME("X.TEST.", 301, "B.a.test.")), rrs(soa), nil, false, plQUpper), "prelude-question-upper-offending")
+		ask(ps, "x.Test.", dns.TypeHTTPS, msg(dns.RcodeSuccess, rrs(plHTTPS("X.TEST.", 307, []string{"93.184.216.34"}, nil, true)), nil, nil, false, plQUpper), "prelude-question-upper-clean")
+		// closed gates: delivered as it came whatever the code
+		c3 := base()
+		c3.ProtEnabled = false
+		ask(plNewServer(t, c3), "x.test.", dns.TypeA, msg(dns.RcodeNameError, rrs(bad, badA), rrs(soa), rrs(glue), true, ""), "prelude-rcode-gate-protection")
+		c4 := base()
+		c4.Clients = []plClient{{Name: "kid", IPs: []string{"10.0.0.1"}, UseOwn: true, Filtering: false}}
+		ask(plNewServer(t, c4), "x.test.", dns.TypeA, msg(dns.RcodeServerFailure, rrs(bad, badA), nil, rrs(glue), false, ""), "prelude-rcode-gate-filtering")
+		c5 := base()
+		c5.Allow = []*vfRule{{ID: 200, Pattern: "||x.test^", White: true}}
+		ask(plNewServer(t, c5), "x.test.", dns.TypeA, msg(dns.RcodeNameError, rrs(bad, badA), rrs(soa), nil, false, plQUpper), "prelude-rcode-gate-allowlisted")
+		// a rewritten question: the target's message behind the CNAME, code and sections kept
+		c6 := base()
+		c6.Rewrites = []plRewrite{{"x.test", "cdn.example"}}
+		tm := msg(dns.RcodeNameError, rrs(plCNAME("cdn.example.", 360, "b.a.test.")), rrs(c02SOA("example.", 900)), rrs(glue), false, "")
+		emit(plNewServer(t, c6), &plQuery{Name: "x.test.", QType: dns.TypeA, Addr: cli, Answer: plMsg(0, good),
+			Extra: map[string]*dns.Msg{"cdn.example.": tm}}, "prelude-rewritten-target-nxdomain-with-sections")
+	}
+
 	for k := 0; k < 4; k++ {
 		// two clients identified by nested subnets with different filtering
 		// flags: the answer with a blocked CNAME is replaced exactly for the
@@ -519,7 +787,7 @@ func TestVerifC02(t *testing.T) {
 			c.Block = append(c.Block, &vfRule{ID: 190, Pattern: "||" + vfPick(rnd, c02Targets) + "^"})
 			name := vfPick(rnd, []string{"www.example.", "x.test.", "cdn.example."})
 			qt := vfPick(rnd, []uint16{dns.TypeA, dns.TypeAAAA, dns.TypeHTTPS})
-			emit(plNewServer(t, c), &plQuery{Name: name, QType: qt, Addr: cli, Answer: c02Answer(rnd, name, qt)}, "pause-expired-first-query")
+			emit(plNewServer(t, c), &plQuery{Name: name, QType: qt, Addr: cli, Answer: shaped(c02Answer(rnd, name, qt), name)}, "pause-expired-first-query")
 		}
 	}
 	// --- round 4: the request's client looked up in a registry that changes
@@ -570,7 +838,7 @@ func TestVerifC02(t *testing.T) {
 		plRunLists(t, out, rnd, ps, 10, func() *plQuery {
 			name := vfMixCase(rnd, vfPick(rnd, append([]string{"www.example", "www.example"}, vfNames...))) + "."
 			qt := vfPick(rnd, []uint16{dns.TypeA, dns.TypeA, dns.TypeAAAA, dns.TypeHTTPS})
-			return &plQuery{Name: name, QType: qt, Addr: netip.MustParseAddr(vfPick(rnd, plClientAddrs)), Answer: c02Answer(rnd, name, qt)}
+			return &plQuery{Name: name, QType: qt, Addr: netip.MustParseAddr(vfPick(rnd, plClientAddrs)), Answer: shaped(c02Answer(rnd, name, qt), name)}
 		}, emit)
 	}
 
@@ -602,7 +870,7 @@ func TestVerifC02(t *testing.T) {
 		plRunProt(t, out, rnd, ps, 12, func() *plQuery {
 			name := vfMixCase(rnd, vfPick(rnd, append([]string{"www.example", "www.example"}, vfNames...))) + "."
 			qt := vfPick(rnd, []uint16{dns.TypeA, dns.TypeA, dns.TypeAAAA, dns.TypeHTTPS})
-			return &plQuery{Name: name, QType: qt, Addr: netip.MustParseAddr(vfPick(rnd, plClientAddrs)), Answer: c02Answer(rnd, name, qt)}
+			return &plQuery{Name: name, QType: qt, Addr: netip.MustParseAddr(vfPick(rnd, plClientAddrs)), Answer: shaped(c02Answer(rnd, name, qt), name)}
 		}, emit)
 	}
 
@@ -623,7 +891,7 @@ func TestVerifC02(t *testing.T) {
 			}
 			qn := vfPick(rnd, []string{"www.example.", "x.test.", name})
 			qt := vfPick(rnd, []uint16{dns.TypeA, dns.TypeA, dns.TypeAAAA, dns.TypeHTTPS})
-			return &plQuery{Name: qn, QType: qt, Addr: netip.MustParseAddr(vfPick(rnd, plClientAddrs)), Answer: c02Answer(rnd, qn, qt)}
+			return &plQuery{Name: qn, QType: qt, Addr: netip.MustParseAddr(vfPick(rnd, plClientAddrs)), Answer: shaped(c02Answer(rnd, qn, qt), qn)}
 		}, emit)
 	}
 
@@ -643,7 +911,7 @@ func TestVerifC02(t *testing.T) {
 				q.RDNS = netip.Prefix{}
 				q.Name = vfMixCase(rnd, vfPick(rnd, plXNames)) + "."
 			}
-			q.Answer = c02Answer(rnd, q.Name, q.QType)
+			q.Answer = shaped(c02Answer(rnd, q.Name, q.QType), q.Name)
 			q.PrintAskedOnly = true
 			delete(q.Extra, strings.ToLower(q.Name))
 			// (in sorted order: the draws must not depend on map iteration)
@@ -654,7 +922,7 @@ func TestVerifC02(t *testing.T) {
 			sort.Strings(extraNames)
 			for _, n := range extraNames {
 				if q.Extra[n] != nil {
-					q.Extra[n] = c02Answer(rnd, n, q.QType)
+					q.Extra[n] = shaped(c02Answer(rnd, n, q.QType), n)
 				}
 			}
 			emit(ps, q)
@@ -695,10 +963,10 @@ func TestVerifC02(t *testing.T) {
 				for j, a := range v4 {
 					ans = append(ans, plA(name, uint32(400+j), a))
 				}
-				emit(ps, &plQuery{Name: name, QType: dns.TypeA, Addr: cli, Answer: plMsg(0, ans...)})
+				emit(ps, &plQuery{Name: name, QType: dns.TypeA, Addr: cli, Answer: shaped(plMsg(0, ans...), name)})
 			default:
 				emit(ps, &plQuery{Name: name, QType: dns.TypeHTTPS, Addr: cli,
-					Answer: plMsg(0, plHTTPS(name, 410, v4, v6, rnd.Bool()))})
+					Answer: shaped(plMsg(0, plHTTPS(name, 410, v4, v6, rnd.Bool())), name)})
 			}
 		}
 	}
@@ -730,7 +998,7 @@ func TestVerifC02(t *testing.T) {
 			}
 			seen[key] = true
 			// one client per configuration: the cache is shared between clients
-			repeat(ps, &plQuery{Name: name, QType: qt, Addr: cli, Answer: c02Answer(rnd, name, qt)})
+			repeat(ps, &plQuery{Name: name, QType: qt, Addr: cli, Answer: shaped(c02Answer(rnd, name, qt), name)})
 		}
 	}
 
@@ -755,7 +1023,7 @@ func TestVerifC02(t *testing.T) {
 			name := vfMixCase(rnd, vfPick(rnd, append([]string{"www.example", "www.example"}, vfNames...))) + "."
 			qt := vfPick(rnd, []uint16{dns.TypeA, dns.TypeA, dns.TypeAAAA, dns.TypeHTTPS, dns.TypeTXT})
 			addr := netip.MustParseAddr(vfPick(rnd, plClientAddrs))
-			emit(ps, &plQuery{Name: name, QType: qt, Addr: addr, Answer: c02Answer(rnd, name, qt)})
+			emit(ps, &plQuery{Name: name, QType: qt, Addr: addr, Answer: shaped(c02Answer(rnd, name, qt), name)})
 		}
 	}
 }
